@@ -112,7 +112,16 @@ def solve_by_instantiation(axioms, pc, goal, timeout_ms=10000):
             quant.append((None, z3.ForAll(vs, z3.Not(body))))
         else:
             neg_ground.append(cj)
-    base = list(axioms) + ground + neg_ground
+    # facts that contain a quantifier below the top level (a definitional equation `F(x) == (A or exists m. B)`):
+    # keep their propositional skeleton - every maximal quantified subformula becomes an unconstrained atom
+    # (an over-approximation of the models, so `unsat` remains a proof)
+    skeletons = []
+    for p in pc:
+        if _contains_quant(p) and not _top_foralls(p):
+            sk = _abstract_quantifiers(p)
+            if sk is not None:
+                skeletons.append(sk)
+    base = list(axioms) + ground + neg_ground + skeletons
     insts = []
     for _round in range(2):
         terms = {}
@@ -186,3 +195,30 @@ def _top_foralls(p):
             out.extend(_top_foralls(ch))
         return out
     return []
+
+
+_atom_cache = {}
+
+
+def _abstract_quantifiers(t):
+    """t with every maximal closed quantified subformula replaced by a Bool atom (one atom per subformula)"""
+    subs = []
+    seen = set()
+    stack = [t]
+    while stack:
+        x = stack.pop()
+        k = x.get_id()
+        if k in seen:
+            continue
+        seen.add(k)
+        if z3.is_quantifier(x):
+            if k not in _atom_cache:
+                _atom_cache[k] = z3.Bool(f"qatom!{k}")
+            subs.append((x, _atom_cache[k]))
+            continue
+        stack.extend(x.children())
+    try:
+        r = z3.substitute(t, *subs)
+    except z3.Z3Exception:
+        return None
+    return None if _contains_quant(r) else r
